@@ -939,6 +939,7 @@ struct Explorer {
     Closure(*v, roots, &stmts, &nodes);
     string missing, kinds;
     bool only_oo_or_val = true;
+    bool oo_consumer_ran = false;   // a statement that names the missing file as an order-only input had work to do (and ran)
     for (int si : stmts) {
       const Stmt& st = v->stmts[si];
       int k = 0;
@@ -948,6 +949,7 @@ struct Explorer {
           missing += x + " ";
           kinds += string(k == 0 ? "explicit" : k == 1 ? "implicit" : k == 2 ? "order-only" : "validation") + " ";
           if (k < 2) only_oo_or_val = false;
+          if (k == 2 && !st.phony && Started(r, st.id)) oo_consumer_ran = true;
         }
         ++k;
       }
@@ -977,6 +979,7 @@ struct Explorer {
     x.detail = "declared source(s) {" + missing + "} (" + kinds + ") are missing and have no rule, but ninja " +
                (reported ? "reported it only after starting " : "did not report it (exit " + to_string(r.exit_code) + ") and started ") + js::Dump(StartedList(r));
     x.facts.set("missing_only_as_order_only_or_validation_input", only_oo_or_val);
+    x.facts.set("a_statement_naming_it_as_an_order_only_input_ran", oo_consumer_ran);
     x.facts.set("reported", reported);
     x.facts.set("only_manifest_regeneration_commands_ran_first", any_cmd && only_regen);
     out->push_back(x);
